@@ -9,6 +9,7 @@
 """
 import json
 import os
+import time
 
 import tlc
 from drivers import body_io as drv
@@ -164,6 +165,7 @@ def c07(ctx):
     # (P) the same through the workers' connection handling: the rest of a body the application did not read arrives
     # after the response (keep-alive connection handed back to the poller / the handler loop in between)
     worker_level(ctx, traces, metas)
+    real_servers(ctx, traces, metas)
     verdicts, stats = tlc.validate_batch("BodyTrace", "BodyTrace.cfg", traces, name="BodyTrace_C07", chunk=3000)
     ctx.add_traces(len(traces), stats)
     for t, m, (v, step) in zip(traces, metas, verdicts):
@@ -171,11 +173,137 @@ def c07(ctx):
             continue
         e = t["ev"][step - 1] if step >= 1 else {}
         sig = "C07/%s/op=%s/framing=%s%s" % (v, e.get("op", e.get("e")), m.get("framing"), ",python-O" if m.get("kind") == "real-O" else "")
+        if m.get("kind") == "real-server":
+            sig += ",real-server,wk=%s%s" % (m["wk"], ",default-socket-timeout" if m.get("default_socket_timeout") else "")
         ctx.violation(sig, "%s at call %d (%s): %s" % (v, step, e, json.dumps(m)[:300]), {"trace": t, "meta": m})
     for t, m in list(zip(traces, metas))[:1] + list(zip(traces, metas))[-2:]:
         ctx.sample({"blen": t["blen"], "events": t["ev"][:6], "meta": {k: m[k] for k in m if k not in ("body", "cuts")}})
     ctx.assumptions += ["bodies have position-dependent content; 'contig' (returned bytes == body slice at the running position) is computed by the driver",
                         "readlines(hint) may ignore the hint (PEP 3333)"]
+
+
+def real_servers(ctx, traces, metas):
+    """the same on REAL servers of the worker classes: the request (body framed by length or chunked) arrives in segments,
+    with pauses of up to 0.8 s inside the body; the application (realapp /body) runs the program on its wsgi.input and
+    reports length and checksum of every piece; a pipelined request follows on the same connection.  One variant per class
+    runs with a process-wide default socket timeout shorter than the pauses (socket.setdefaulttimeout, as an application or a
+    configuration file may set): what the application reads must not depend on it."""
+    import urllib.parse
+    import zlib
+    from drivers import realproc as rp
+    from props.reload_real import _parallel
+    rng = ctx.rng
+    plan = [("gevent", "0.4"), ("gthread", None), ("sync", "0.4"), ("eventlet", None)] if ctx.quick else \
+        [(wk, to) for wk in ("sync", "gthread", "gevent", "eventlet") for to in (None, "0.4")]
+    jobs = {}
+    for key in plan:
+        lst = []
+        for _ in range(5 if ctx.quick else 25):
+            blen = rng.choice([5, 1200, 3000, 9000])
+            body, nls = drv.make_body(rng, blen, rng.choice(["none", "few", "dense"]))
+            framing = rng.choice(["len", "chunked"])
+            lay = rng.choice(layouts(rng, blen)) if framing == "chunked" else [blen]
+            prog = rand_program(rng, 5)
+            lst.append((body, nls, framing, lay, prog, rng.random() < 0.6))
+        jobs[key] = lst
+
+    def one_server(key, i):
+        wk, to = key
+        s = rp.Server(wk, workers=1, threads=2 if wk == "gthread" else None, args=["--keep-alive", "5", "--timeout", "30"],
+                      env={"VERIF_SOCK_TIMEOUT": to} if to else None, name="c07r")
+        out = []
+        try:
+            s.start()
+            s.wait_booted(1)
+            for body, nls, framing, lay, prog, slow in jobs[key]:
+                stream = drv.frame(body, framing, lay, method=b"POST")
+                # the driver's request targets "/"; the program travels in the query
+                target = b"/body?prog=" + urllib.parse.quote(json.dumps([[op, n] for op, n in prog])).encode()
+                stream = stream.replace(b" /b HTTP/1.1", b" " + target + b" HTTP/1.1", 1)
+                head_end = stream.find(b"\r\n\r\n") + 4
+                follower = b"GET /pid HTTP/1.1\r\nHost: h\r\n\r\n"
+                cuts = sorted(set([head_end] + ([head_end + len(stream[head_end:]) // 2] if len(stream) - head_end > 2 else [])))
+                segs, prev = [], 0
+                for c in cuts + [len(stream)]:
+                    if c > prev:
+                        segs.append(stream[prev:c])
+                        prev = c
+                ev = []
+                foll_ok = False
+                try:
+                    c = s.connect(timeout=15)
+                    # the next request follows in the same segment as the end of the body (async classes), or once the
+                    # first response is there (threaded class: a pipelined request is its recorded finding, C13 F25)
+                    pipelined = wk in ("gevent", "eventlet")
+                    try:
+                        for k, sg in enumerate(segs):
+                            if k and slow:
+                                time.sleep(0.8)              # longer than the default socket timeout of the variant
+                            c.sendall(sg if k < len(segs) - 1 else sg + (follower if pipelined else b""))
+                    except OSError:
+                        pass          # (an application that does not read its input may have answered and left already)
+                    def responses(n):
+                        """the next n responses (each with a Content-Length) from the connection -> [(status, body)]"""
+                        got, buf = [], b""
+                        c.settimeout(6.0)
+                        while len(got) < n:
+                            while True:
+                                he = buf.find(b"\r\n\r\n")
+                                if he < 0:
+                                    break
+                                head = buf[:he].decode("latin-1")
+                                cl = [int(x.split(":", 1)[1]) for x in head.split("\r\n")[1:] if x.lower().startswith("content-length:")]
+                                need = he + 4 + (cl[0] if cl else 0)
+                                if len(buf) < need:
+                                    break
+                                got.append((int(head.split(" ")[1]), buf[he + 4:need]))
+                                buf = buf[need:]
+                                if len(got) == n:
+                                    return got
+                            d = c.recv(65536)
+                            if not d:
+                                break
+                            buf += d
+                        return got
+                    rs = responses(2 if pipelined else 1)
+                    st, rbody = rs[0] if rs else (0, b"")
+                    res = json.loads(rbody.decode()) if st == 200 else [{"raised": "status%d" % st}]
+                    if wk != "sync":
+                        if not pipelined:
+                            c.sendall(follower)
+                            rs += responses(1)
+                        foll_ok = len(rs) == 2 and rs[1][0] == 200 and rs[1][1].startswith(b"pid=")
+                    c.close()
+                except (OSError, ValueError) as e:
+                    res = [{"raised": "NoResponse:" + type(e).__name__}]
+                pos = 0
+                for (op, n), r in zip(prog, res):
+                    if "raised" in r:
+                        ev.append({"e": "call", "op": "raised:" + r["raised"], "n": 0, "len": 0, "contig": False})
+                        break
+                    rec = {"e": "call", "op": op, "n": -1 if (n is None or n < 0) else n, "len": r["len"],
+                           "contig": zlib.crc32(body[pos:pos + r["len"]]) == r["crc"]}
+                    if "lines" in r:
+                        rec["lines"] = r["lines"]
+                    pos += r["len"]
+                    ev.append(rec)
+                if len(res) < len(prog) and not any("raised" in r for r in res):
+                    ev.append({"e": "call", "op": "raised:ShortReport", "n": 0, "len": 0, "contig": False})
+                expect = len(stream)
+                ev.append({"e": "stop", "next_start": expect if (foll_ok or wk == "sync") else -2, "expect_next": expect})
+                out.append(({"blen": len(body), "nls": nls, "ev": ev},
+                            {"kind": "real-server", "wk": wk, "default_socket_timeout": to, "blen": len(body), "framing": framing,
+                             "layout": lay[:10], "prog": prog, "slow_segments": slow, "log": s.errlog()[-200:] if not foll_ok and wk != "sync" else ""}))
+            return out
+        finally:
+            s.cleanup()
+    n = 0
+    for res in _parallel(plan, one_server, par=8):
+        for t, m in res:
+            traces.append(t)
+            metas.append(m)
+            n += 1
+    ctx.coverage["real_server_body_programs"] = n
 
 
 def worker_level(ctx, traces, metas):
